@@ -29,6 +29,7 @@ TNext ==
      CASE e.ev = "Begin" -> Begin(e) /\ RecBegin({})
        [] e.ev = "Reset" -> Reset(e) /\ UNCHANGED <<viol, noted>>
        [] e.ev \in {"Write", "Flush", "Close"} -> Call(e) /\ Rec(Failed(e))
+       [] e.ev = "Soak"  -> Soak(e) /\ Rec(SoakFailed(e))
        [] e.ev = "Cmp"   -> UNCHANGED cvars /\ Rec(CmpFailed(e))
        [] e.ev = "Ctor"  -> UNCHANGED cvars /\ Rec(CtorFailed(e))
        \* mechanism events of the compressor (hooks): judged by DynMechTrace, not by the contract
